@@ -45,20 +45,33 @@ def run(chk):
         lists.append("unicode.dis," + str(tf))
     for tl in lists:
         r = rng.fork(("cases", tl))
-        base = []
+        base, curs = [], []
         for i in range(25 if quick else 120):
-            inp = safety.gen_input(r, 30)
+            inp = safety.gen_sentence(r, 30) if i % 2 else safety.gen_input(r, 30)
             inp = [c for c in inp if c] or [97]
             other = r.choice([0, 0, 1, 128, 256, 1 | 128])
             outlen = r.choice([4 * len(inp) + 10, 4 * len(inp) + 10, r.range(1, len(inp) + 1)])
             base.append((inp, other, outlen))
+            # a cursor (the same in all three modes): where it lies may influence which rules apply, the mode bits may not
+            curs.append(r.range(0, len(inp) - 1) if r.chance(0.4) else -2)
+        # aimed: the cursor in the word behind one of the table's largesign / joinword words (their special treatment looks at
+        # the cursor in the computer-braille-at-cursor modes only)
+        tpath = tl.split(",")[-1]
+        sps = [sp for op, sp in safety.special_operands(tpath if os.path.isabs(tpath) else str(REPO / "tables" / tpath)) if op in ("largesign", "joinword") and 32 not in sp]
+        for _ in range((8 if quick else 30) if sps else 0):
+            w1, w2 = r.choice(sps), [ord(c) for c in r.choice(safety.WORDS)]
+            pre = ([ord(c) for c in r.choice(safety.WORDS)] + [32]) if r.chance(0.5) else []
+            inp = pre + w1 + [32] + w2 + ([32] + r.choice(sps) if r.chance(0.3) else [])
+            base.append((inp, r.choice([0, 0, 128, 256]), 4 * len(inp) + 10))
+            curs.append(len(pre) + len(w1) + 1 + r.range(0, len(w2) - 1))
+            chk.tally("aimed_cursor_behind_largesign_or_joinword")
         lines = []
-        for inp, other, outlen in base:
+        for (inp, other, outlen), cur in zip(base, curs):
             for m in (0, 4, 4 | 64):
-                lines.append(trans.case_line("T", other | m, inp, outlen, presence=1))
+                lines.append(trans.case_line("T", other | m, inp, outlen, cursor=cur, presence=1 | (16 if cur >= 0 else 0)))
         rs = trans.run_cases(exe, tl, lines, exact=1, env=env, timeout=400)
         # ucBrl without dotsIO has no effect: the result is the one of the same call without the bit
-        ulines = [trans.case_line("T", other | 64, inp, outlen, presence=1) for inp, other, outlen in base]
+        ulines = [trans.case_line("T", other | 64, inp, outlen, cursor=cur, presence=1 | (16 if cur >= 0 else 0)) for (inp, other, outlen), cur in zip(base, curs)]
         us = trans.run_cases(exe, tl, ulines, exact=1, env=env, timeout=400)
         for j, ((inp, other, outlen), u) in enumerate(zip(base, us)):
             r0 = rs[3 * j]
@@ -92,6 +105,9 @@ def run(chk):
             marks = [56 if c & 0xc0 else 48 for c in r4.out[:r4.outlen]]
             if r4.typeform[:r4.outlen] != marks or ru.typeform[:ru.outlen] != marks:
                 chk.violation("typeform-marks", "typeform is not '8' exactly at cells with dot 7/8: %s vs cells %s" % (r4.typeform[:r4.outlen], r4.out[:r4.outlen]), case)
+                continue
+            if r4.cursor != ru.cursor or (r0.ret == 1 and r0.cursor != r4.cursor):
+                chk.violation("mode-bits-move-the-cursor", "the returned cursor differs between the output modes: %s / %s / %s" % (r0.cursor, r4.cursor, ru.cursor), case)
                 continue
             if r0.ret == 1:
                 if (r0.inlen, r0.outlen) != (r4.inlen, r4.outlen) or r0.typeform[:r0.outlen] != marks:
